@@ -113,6 +113,26 @@ class Collection:
                     else:
                         parts.append("\n\n{|\n| [[File:%s|thumb|%s]]\n| %s\n|-\n| %s || %s\n|}\n" % (
                             name, word(), word(), word(), word()))
+            if rnd.random() < 0.35:
+                # a cell spanning columns and rows, with real cells in the rows it spans
+                cs, rs = rnd.choice((2, 3)), rnd.choice((2, 3))
+                rows = ['| colspan="%d" rowspan="%d" | %s || %s' % (cs, rs, word(), word())]
+                for _ in range(rs - 1):
+                    rows.append("| " + word())
+                rows.append("| " + " || ".join(word() for _ in range(cs + 1)))
+                parts.append("\n\n{| class=\"wikitable\"\n" + "\n|-\n".join(rows) + "\n|}\n\n%s\n" % word())
+            if self.images and rnd.random() < 0.35:
+                # a gallery that needs more than one row, every picture with its own caption
+                n = rnd.randint(5, 9)
+                names = sorted(self.images)
+                opt = rnd.choice(("", "", ' perrow="2"', ' perrow="3"'))
+                parts.append("\n\n<gallery%s>\n%s\n</gallery>\n\n%s\n" % (
+                    opt, "\n".join("File:%s|%s" % (rnd.choice(names)[5:], word()) for _ in range(n)), word()))
+            if rnd.random() < 0.12:
+                # a table row taller than a page (the writer's first layout attempt fails, it renders again in fail-safe mode)
+                parts.append("\n\n{| class=\"wikitable\"\n|-\n| %s || %s\n|}\n\n%s\n" % (
+                    " ".join(word() for _ in range(900)), " ".join(word() for _ in range(900)), word()))
+                self.tall = True
             self.articles.append({"title": title, "text": "".join(parts), "expected": exp + extra})
         self.chapters = narts > 1 and rnd.random() < 0.5
 
@@ -259,6 +279,8 @@ def render_book(R, coll, workdir, idx):
                 R.count("pdf_words_checked", len(expected))
                 if missing:
                     where = word_kind(coll, missing[0])
+                    if set(missing) <= dup_extlink_labels(a["text"] for a in coll.articles):
+                        where, shape = "dup-external-link-label-in-reference", "any-mode"
                     R.violation("pdf-word-missing:%s:%s" % (where, shape),
                                 "%d of %d expected words are not in the PDF text, first %r (%s)" % (len(missing), len(expected), missing[0], where),
                                 dict(case, missing=missing[:10]))
@@ -297,6 +319,20 @@ def render_book(R, coll, workdir, idx):
         _net[:] = [None]
     R.case(h64(json.dumps(case, sort_keys=True)), len(expected) >= 40,
            sample={"articles": narts, "images": sorted(coll.images), "chapters": coll.chapters, "expected_words": len(expected)})
+
+
+def dup_extlink_labels(texts):
+    """label words of the second and later external links to one URL inside one <ref> (the cleaner removes those
+    links on purpose: C07's open finding remove_dup_links_in_refs)"""
+    out = set()
+    for text in texts:
+        for body in re.findall(r"<ref[^>/]*>(.*?)</ref>", text, re.S):
+            seen = set()
+            for url, label in re.findall(r"\[(https?://[^\s\]]+)\s+([^\]]*)\]", body):
+                if url in seen:
+                    out.update(re.findall(r"[a-z0-9]+", label))
+                seen.add(url)
+    return out
 
 
 def word_kind(coll, w):
@@ -411,7 +447,11 @@ def single_article(R, rnd, workdir):
         ptext, _ = pdf_text(fn)
         missing = check_words(ptext, expected)
         R.count("pdf_words_checked", len(expected))
-        if missing:
+        if missing and set(missing) <= dup_extlink_labels([case["single"]]):
+            R.violation("pdf-word-missing:dup-external-link-label-in-reference:any-mode",
+                        "%d of %d words missing from the PDF text, first %r" % (len(missing), len(expected), missing[0]),
+                        dict(case, missing=missing[:10]))
+        elif missing:
             R.violation("pdf-word-missing:single-article-test-mode", "%d of %d words missing from the PDF text, first %r" % (
                 len(missing), len(expected), missing[0]), dict(case, missing=missing[:10]))
     except Exception as e:
